@@ -18,7 +18,7 @@
    sequence), ex_sites_after_clear, ex_tracked_after_clear, ex_seek_nan, ex_iter_run. *)
 From Coq Require Import List ZArith.
 From TskVerif Require Import Base.Common C06.Model C06.Facts C06.BasicProofs C06.ListFacts C06.Valid
-  C06.CursorProofs C06.NavProofs C06.Theorems C06.IterProofs C06.FullProofs C06.CountProofs.
+  C06.CursorProofs C06.NavProofs C06.Theorems C06.IterProofs C06.FullProofs C06.CountProofs C06.SampleLists.
 Import ListNotations.
 Open Scope Z_scope.
 
@@ -158,6 +158,47 @@ Theorem nav_canonical : forall ts ops thr, valid_tsb ts = true ->
     abs (fst sf) = abs (fst fr) /\ t_tracked (fst sf) = t_tracked (fst fr) /\
     obs_views ts thr (fst sf) = obs_views ts thr (fst fr).
 Proof. exact nav_canonical_full_proof. Qed.
+
+(* (l) tsk_tree_copy / Tree.copy (TSK_NO_INIT path, all fields incl. the tree_pos cursor ranges
+   are transferred — [tree_copy]): in any reachable state copy() returns None, the new current
+   tree is EQUAL to the original (which is kept as the other tree), and after ANY further op
+   sequence the copy is again the fresh tree of its index (abs, counts, children sets, roots).
+   (The model has one option set per tree sequence description: Tree.copy always passes the
+   source's options; the C-API-only case of differing options is not modelled.) *)
+Theorem copy_canonical : forall ts ops1 ops2 thr, valid_tsb ts = true ->
+  exists s1 o1 s2 o2 fr o3,
+    run full ts ops1 = Ok (s1, o1) /\
+    run full ts (ops1 ++ [OpCopy]) = Ok ((fst s1, fst s1), o1 ++ [RET_NONE]) /\
+    run full ts (ops1 ++ OpCopy :: ops2) = Ok (s2, o2) /\
+    run full ts (fresh_ops (t_index (fst s2))) = Ok (fr, o3) /\
+    abs (fst s2) = abs (fst fr) /\ t_tracked (fst s2) = t_tracked (fst fr) /\
+    obs_views ts thr (fst s2) = obs_views ts thr (fst fr).
+Proof. exact copy_canonical_proof. Qed.
+
+(* (m) SAMPLE LISTS (as sets) — PARTIAL.  tsk_tree_update_sample_lists is modelled at the level
+   of sets (slist_walk: along the ancestor path, list[u] := own sample of u U the lists of u's
+   children).  Proved: the recurrence  list[u] = own(u) U union over children  (srec) has exactly
+   one solution on an acyclic edge-backed parent array, and one insert step (child parentless)
+   or remove step (edge present) followed by the walk re-establishes it for the new parent
+   array.  MISSING for the full statement "after any op list the sample lists equal those of a
+   fresh Tree": the list array is not a field of the navigation state, so the step lemmas are
+   not threaded through the loops of next / prev / seek (the plumbing CountProofs does for the
+   counts; [transition_good] already establishes the two preconditions used here).  Tie to the
+   implementation: check_slists evaluates, on every correspondence case with sample_lists=True
+   and after every op, that the implementation's lists satisfy srec over the model's canonical
+   parent array — which by the first conjunct determines them. *)
+Theorem sample_lists_step_partial : forall ts, valid_tsb ts = true ->
+  (forall P S1 S2, backed ts P -> srec ts P S1 -> srec ts P S2 ->
+                   forall u, 0 <= u < ts_N ts -> gl S1 u = gl S2 u) /\
+  (forall P S c p P' S' fuel, backed ts P -> zlen S = ts_N ts + 1 -> srec ts P S ->
+     0 <= c < ts_N ts -> 0 <= p < ts_N ts -> tm ts c < tm ts p -> zn P c = -1 ->
+     set P c p = Ok P' -> Z.of_nat fuel > ts_N ts + 1 -> slist_walk ts fuel P' S p = Ok S' ->
+     backed ts P' /\ zlen S' = ts_N ts + 1 /\ srec ts P' S') /\
+  (forall P S c p P' S' fuel, backed ts P -> zlen S = ts_N ts + 1 -> srec ts P S ->
+     0 <= c < ts_N ts -> 0 <= p < ts_N ts -> zn P c = p ->
+     set P c (-1) = Ok P' -> Z.of_nat fuel > ts_N ts + 1 -> slist_walk ts fuel P' S p = Ok S' ->
+     backed ts P' /\ zlen S' = ts_N ts + 1 /\ srec ts P' S').
+Proof. exact sample_lists_step_proof. Qed.
 
 (* (g) seek is total on EVERY argument, NaN included (fix eee123e): Tree.seek(x) either lands
    on the tree containing x, or raises ValueError and leaves both trees untouched; the
